@@ -135,7 +135,7 @@ def run(ck, w):
     gu = w.body("blockdir::get_async_uncached")
     o = ck.ob("C09.3c", "blocks (full mode): get_async_uncached returns Ok only if the content hash equals the block name")
     tests = rules.eq_tests(gu, r"blockhash::BlockHash")
-    oks = [bb for bb, j, s in rules.agg_sites(gu, "std::result::Result", "Ok")]
+    oks = [bb for bb, j, s in rules.agg_sites(gu, "std::result::Result", "Ok") if s["pl"]["l"] == 0]
     edges = set()
     for e, pol in tests:
         edges |= rules.bool_switch_edges(gu, e, pol)
